@@ -1,4 +1,5 @@
 import LK.Generated.GuardsC11
+import LK.Model.Rng
 /-!
 # C11 — obligation on the translated guard of `DerivingRNG.__call__`
 Branch 1 derives the seed from the user identifier; branch 0 spawns the next child seed.
@@ -37,5 +38,23 @@ theorem sampleUsersPath_spec (repeats : LK.Py.V) (disjoint tooMany : Bool) :
 theorem samplers_agree (repeats : LK.Py.V) (disjoint tooMany : Bool) :
     sampleRecordsPath repeats disjoint tooMany = sampleUsersPath repeats disjoint tooMany := by
   rw [sampleRecordsPath_spec, sampleUsersPath_spec]
+
+
+/-! ### which generator a seed resolves to (`random_generator`, `derivable_rng`) -/
+
+/-- the process-global generator is used exactly when no seed is given and one has been configured … -/
+theorem global_iff (seed globalRng : LK.Py.V) : randomGeneratorBranch seed globalRng = 0 ↔ (seed.isNone ∧ globalRng.isSome) := by
+  cases seed <;> cases globalRng <;> simp [randomGeneratorBranch]
+
+/-- … so every given seed — 0 included — yields its own fresh generator: the model's `resolve` -/
+theorem resolve_eq (seed : Option Nat) (g : Int) :
+    LK.Rng.resolve seed = (if randomGeneratorBranch (seed.map (fun n => (n : Int))) (some g) = 0 then LK.Rng.Gen.global else
+      match seed with | some s => LK.Rng.Gen.fresh s | none => LK.Rng.Gen.global) := by
+  cases seed <;> simp [LK.Rng.resolve, randomGeneratorBranch]
+
+/-- the seed specification: `"user"` and `(seed, "user")` give per-user derivation, anything else one fixed generator -/
+theorem derivableSpec_dispatch (isUser isTuple : Bool) :
+    derivableSpecBranch isUser isTuple = (if isUser then 0 else if isTuple then 1 else 2) := by
+  cases isUser <;> cases isTuple <;> rfl
 
 end LK.Gen.GuardsC11
